@@ -151,7 +151,7 @@ def render(t) -> str:
         return t[1]
     if k == "gdc":
         return f"{t[1]}[{', '.join(render(a) for a in t[2])}]"
-    if k == "newtype":
+    if k in ("newtype", "talias"):
         return t[1]
     if k == "tv":
         return t[1]
@@ -228,7 +228,7 @@ def children(t):
         return [t[1]]
     if k == "union":
         return list(t[1])
-    if k == "newtype":
+    if k in ("newtype", "talias"):
         return [t[2]]
     if k == "gdc":
         return list(t[2])
@@ -243,8 +243,8 @@ def walk(t):
 
 def strip(t):
     """remove transparent wrappers (Annotated / Final / NewType)."""
-    while t[0] in ("ann", "final", "newtype"):
-        t = t[2] if t[0] == "newtype" else t[1]
+    while t[0] in ("ann", "final", "newtype", "talias"):
+        t = t[2] if t[0] in ("newtype", "talias") else t[1]
     return t
 
 
